@@ -10,6 +10,54 @@ STD_TRUST = [
 ]
 
 PROPS = {
+    "C14": dict(
+        units=["serde"],
+        level="proof",
+        min_obligations=60,
+        replay_family="c14",
+        bounded=[dict(family="c14", what="to_value of derived Serialize impls == documented shape; from_value of the alternative encodings", bound="23 typed values + 6 alternative encodings")],
+        explanation="serde-lexpr/src/value/ser.rs is extracted from /repo and every Serializer method and every collector (SerializeList, SerializeVector, "
+                    "SerializeTupleVariant, SerializeMap, SerializeStruct, SerializeStructVariant: serialize_element/field/key/value/entry and end) is verified to build exactly "
+                    "the documented shape as a function of the children's S-expressions: seq/set -> mk_list(items, ()), tuple/tuple struct -> Vector(items), map -> list of "
+                    "(key . value) cells, struct -> list of (symbol(field) . value), None -> (), Some(x) -> (x), unit/unit struct -> (), newtype struct -> its content, unit "
+                    "variant -> symbol, newtype variant -> (name . payload), tuple variant -> (name item...), struct variant -> (name (field . value)...), bytes -> byte vector, "
+                    "char -> character, every integer width -> the integer of the same mathematical value (num_of_int(v)). Deserializer side (value/de.rs): deserialize_seq accepts "
+                    "(), vectors and lists, deserialize_tuple accepts vectors and lists, everything else is an Err; ListAccess rejects a non-null, non-cons tail; MapAccess "
+                    "rejects non-pair entries and improper tails; UnitVariantAccess rejects newtype/tuple/struct payloads; every such error is a data error (C18).",
+        assumptions=[
+            "serde::Serialize is modelled by trait Serialize { ser_val } (a child's impl returns what the serializer methods it calls return): ASSUMED for derive-generated code",
+            "`impl ser::Serializer for Serializer` and the collector impls are verified as inherent impls (serde's traits are external); where two serde traits give one type a "
+            "method of the same name the second is renamed (end_tuple_struct)",
+            "to_value is verified with signature (value: &T)",
+            "str.into() / [u8].into() / Vec.into(): Box conversions with assumed view-preserving specs",
+        ],
+        trusted=STD_TRUST,
+    ),
+    "C18": dict(
+        units=["serde"],
+        level="proof",
+        min_obligations=50,
+        replay_family="c18",
+        bounded=[dict(family="c18", what="from_value::<T>(v) never panics, errors are Data, accepted values re-serialize and read back equal",
+                      bound="117 values (atoms, lists, pairs, vectors, alists, improper lists, variant shapes) x 18 target types")],
+        explanation="PROVED (Verus, unbounded in the value): serde-lexpr/src/value/de.rs is extracted from /repo: all 30 deserialize_* methods (the 10 numeric ones per macro "
+                    "instantiation), invalid_value, from_value, ConsAccess / ListAccess / VecAccess / MapAccess / VariantAccess / UnitVariantAccess are free of panics - index in "
+                    "bounds, idx counter cannot overflow, and the single expect() (MapAccess::next_value_seed) is dead under serde's documented MapAccess protocol (ghost "
+                    "has_entry, established by next_key_seed returning Some) - and every error they construct goes through Error::invalid_type -> Error::custom, verified to be "
+                    "ErrorImpl::Message, which Error::classify (verified) maps to Category::Data; errors handed on come from the visitor/seed (assumed data, see assumptions) or "
+                    "from the access objects (proved). NOT PROVED: `accepted alternative encodings are normalised` (serialize(x) reads back as x) relates derive-generated "
+                    "Serialize and Deserialize impls of an arbitrary T: BOUNDED stand-in on every run.",
+        assumptions=[
+            "serde's Visitor / DeserializeSeed / Deserialize implementations (serde, serde_derive) are modelled by traits DeVisitorBase/DeVisitor/DeSeed/DeDeserialize whose methods "
+            "may return any value or any DATA error (their own errors come from serde::de::Error constructors, which end in Error::custom): ASSUMED",
+            "visitors follow serde's MapAccess protocol (next_value_seed only directly after next_key_seed returned Some): ASSUMED, as serde documents",
+            "visit_number (a function-local struct implementing lexpr::number::Visitor) is assumed to return what the visitor returns",
+            "message formatting (format_args!/to_string) is std: an arbitrary String",
+            "Visitor is split into DeVisitorBase + DeVisitor (visit_enum) because Verus rejects the trait cycle Visitor -> EnumAccess -> VariantAccess -> Visitor",
+        ],
+        not_covered=["serde-lexpr/src/de.rs, ser.rs (text layer: delegates to lexpr's parser/printer)", "self-consistency clause (bounded stand-in only)"],
+        trusted=STD_TRUST,
+    ),
     "C19": dict(
         units=["parse"],
         level="proof",
@@ -225,6 +273,16 @@ PROPS = {
 
 ALL = ["C%02d" % i for i in range(1, 21)]
 _NA_REASONS = {
+    "C04": "the round trip relates two programs that are not in the repository - the serde_derive-generated Serialize and Deserialize impls of an arbitrary Rust type - "
+           "through this crate; a contract on serde-lexpr's functions can pin the shape each serializer method builds (claimed as C14) and what each deserializer method "
+           "accepts (C14/C18), but `deserialize(serialize(x)) == x` is a statement about the derived code's call sequences, which no contract in /repo can carry; the text "
+           "half additionally needs the print/parse round trip (C01, not claimed)",
+    "C01": "needs the composition theorem parse(print(v)) == v over a functional specification of the whole reader (sp_value); the per-token and per-emitter contracts exist "
+           "(units print, parse) but the composition was not built - not claimed rather than claimed on partial evidence (DESIGN 9.3)",
+    "C02": "as C01, for every consistent printer/parser option pairing; additionally blocked by the delimiter-set defects D5/D6 seen while reading (DESIGN 7)",
+    "C13": "as C01 in the other direction (print(parse(t)) reads back): needs the functional reader specification",
+    "C17": "the UTF-8 well-formedness argument needs vstd's UTF-8 theory on concatenations of emitted pieces and on slices cut at scanner positions; the unsafe "
+           "from_utf8_unchecked sites are isolated behind assumed helpers (vx_from_utf8_unchecked) and listed in the trusted base of C03/C12, but the property itself is not decided",
     "C09": "sexp! is a compile-time program over rustc token trees whose output is Rust source; neither Verus nor Kani has a semantics for "
            "rustc's lexer/quote!, so no contract within reach can state 'the value this token stream evaluates to' (DESIGN §6)",
     "C16": "stack consumption is not a state either verifier exposes; the mechanism that breaks it (derived Clone/PartialEq/drop glue) has no "
